@@ -15,7 +15,7 @@ func init() {
 	Register("C23", Extractor{Import: "Hv.Props.C23", Type: "Hv.C23.Facts", Run: func(fs *Facts) {
 		const mp = "app/core/hydra/swamp/chronicler/v2/migrator/migrator.go"
 		const cp = "app/core/hydra/swamp/chronicler/chronicler.go"
-		names := []string{"dedupeLast", "writeBeforeDelete", "verifyBeforeDelete", "removeOnVerifyFail", "removeOnWriteFail",
+		names := []string{"dedupeLast", "writeBeforeDelete", "verifyBeforeDelete", "removeOnVerifyFail", "removeOnWriteFail", "removeOnOpenFail",
 			"emptyKeyIsError", "verifyValues", "skipsZeroLength", "nameFromMeta", "v1LoadIteratesMap"}
 		set := map[string]bool{}
 		put := func(n string, t Tri, where string) { fs.Tri(n, t, where); set[n] = true }
@@ -141,29 +141,54 @@ func init() {
 			})
 		}
 
-		// --- writeV2File: every error return is preceded by os.Remove(filePath)
+		// --- writeV2File: the error branches after the writer exists remove the file (removeOnWriteFail);
+		//     the branch right after NewFileWriterWithName — which has already created the file when the
+		//     header or the name cannot be written — is a fact of its own (removeOnOpenFail)
 		if fd := f.Func("Migrator", "writeV2File"); fd != nil {
-			okAll, n := true, 0
-			ast.Inspect(fd.Body, func(x ast.Node) bool {
-				ifs, ok := x.(*ast.IfStmt)
-				if !ok || !strings.Contains(f.Str(ifs.Cond), "err != nil") {
-					return true
-				}
-				// the first check (NewFileWriterWithName failed: nothing was created) is exempt
-				if ifs.Init == nil && len(ifs.Body.List) == 1 {
-					if prev := f.Str(ifs.Body.List[0]); prev == "return err" && n == 0 {
-						n++
-						return true
+			okLater, nLater := true, 0
+			openRemoves, seenOpen := false, false
+			for i, st := range fd.Body.List {
+				if as, ok := st.(*ast.AssignStmt); ok && f.Contains(as, "NewFileWriterWithName(") && i+1 < len(fd.Body.List) {
+					if ifs, ok := fd.Body.List[i+1].(*ast.IfStmt); ok && f.Str(ifs.Cond) == "err != nil" {
+						seenOpen = true
+						openRemoves = len(f.Calls(ifs.Body, "os.Remove")) > 0
 					}
 				}
-				n++
+			}
+			ast.Inspect(fd.Body, func(x ast.Node) bool {
+				ifs, ok := x.(*ast.IfStmt)
+				if !ok || ifs.Init == nil || !strings.Contains(f.Str(ifs.Cond), "err != nil") {
+					return true
+				}
+				nLater++
 				if len(f.Calls(ifs.Body, "os.Remove")) == 0 {
-					okAll = false
+					okLater = false
 				}
 				return true
 			})
-			if n >= 3 {
-				put("removeOnWriteFail", TriOf(okAll), at(fd))
+			if nLater >= 2 {
+				put("removeOnWriteFail", TriOf(okLater), at(fd))
+			}
+			// the writer itself may clean up
+			if wf, err := Load("app/core/hydra/swamp/chronicler/v2/writer.go"); err == nil {
+				if cf := wf.Func("FileWriter", "createNewFile"); cf != nil {
+					all, n := true, 0
+					ast.Inspect(cf.Body, func(x ast.Node) bool {
+						if ifs, ok := x.(*ast.IfStmt); ok && ifs.Init != nil && strings.Contains(wf.Str(ifs.Init), "file.Write(") {
+							n++
+							if len(wf.Calls(ifs.Body, "os.Remove")) == 0 {
+								all = false
+							}
+						}
+						return true
+					})
+					if n >= 1 && all {
+						openRemoves = true
+					}
+				}
+			}
+			if seenOpen {
+				put("removeOnOpenFail", TriOf(openRemoves), at(fd))
 			}
 		}
 
